@@ -435,7 +435,8 @@ class ISD(model.Document):
   def _make_ruby_conformant(
       isd: model.Document,
       isd_element: typing.Union[model.Ruby, model.Rtc],
-      children: typing.List[model.ContentElement]
+      children: typing.List[model.ContentElement],
+      is_base_container_retained: bool = False
     ) -> typing.Tuple[typing.Optional[model.ContentElement], typing.List[model.ContentElement]]:
     """Returns the element and children to use when some of the children of the ruby element or ruby text container
     `isd_element` are not part of the ISD, e.g. because they are not temporally active, so that the remaining
@@ -469,7 +470,7 @@ class ISD(model.Document):
 
     # only the base text, if any, remains: the ruby element and its base become spans
 
-    def _as_span(element: model.ContentElement) -> model.Span:
+    def _as_span(element: typing.Union[model.Rb, model.Rbc]) -> model.Span:
       span = model.Span(isd)
       element.copy_to(span)
       span.set_region(element.get_region())
@@ -487,7 +488,17 @@ class ISD(model.Document):
 
     isd_element.copy_to(span)
 
-    return (span, [_as_span(base)])
+    # each ruby base becomes a span; unless it still carries timing, as in a document that is not an ISD, a ruby base container
+    # is not retained since the style properties that apply to it are not those that apply to a span
+
+    if base is rb or is_base_container_retained:
+      return (span, [_as_span(base)])
+
+    bases = list(base)
+
+    base.remove_children()
+
+    return (span, [_as_span(b) for b in bases])
 
   @staticmethod
   def _process_element(
@@ -1538,7 +1549,7 @@ def _clone_doc_with_one_region(doc: model.ContentDocument, region_id: str):
 
       # some children of the ruby element or ruby text container may be associated with another region
 
-      new_element, new_children = ISD._make_ruby_conformant(new_doc, new_element, new_children)
+      new_element, new_children = ISD._make_ruby_conformant(new_doc, new_element, new_children, True)
 
       if new_element is None:
         return None
